@@ -78,8 +78,9 @@ def samples_for(prop, n):
             from .models import evalorder as eo
             out = []
             seed = 1
+            n = min(n, 4)          # Miri needs minutes for the deep trees
             while len(out) < n and seed < 40 * n:
-                g = eo.gen_random(seed, 4)
+                g = eo.gen_random(seed, 3)
                 seed += 1
                 if g is None:
                     continue
